@@ -1,6 +1,22 @@
 """Per-property manifest metadata.  bin/mkmanifest renders MANIFEST.json from this."""
 
 CHECKS = {
+    "C12": dict(
+        text="spec/SendPacket.tla is an observer over send_packet runs with every clause an enabling condition: a request returns normally "
+             "only after the NCP accepted it and (unicast) a confirmation for its own destination and tag reported success; refusal, "
+             "busy after the configured number of spaced attempts, or a failed confirmation raise a delivery error; no confirmation "
+             "within the timeout raises a timeout at exactly that instant; foreign, duplicate and unsolicited confirmations change "
+             "nothing; same tag on every attempt, bounded attempts, retry spacing; set-up commands for one target are followed only by "
+             "that target's set-up and send; nothing pending remains. SendPacketMC checks an abstract model of send_packet (request lock, "
+             "retry, bounded wait) for two concurrent requests against arbitrary NCP answers and confirmations (345k states). The real "
+             "ControllerApplication.send_packet runs over the real EZSP for versions 4..14 against the simulated NCP: unicasts (plain, "
+             "source route, extended timeout, IEEE-addressed) x 6 enqueue-status sequences x 10 confirmation patterns, concurrent and "
+             "staggered mixes with multicast / broadcast and unsolicited confirmations, random mixes; TLC validates each run.",
+        design_ref="3/C12",
+        note="Trusted: zigpy.util.Requests shim (compat.py), simulated EZSP NCP (enqueue answers; messageSentHandler in the version's "
+             "field order), virtual time. RETRY_DELAYS and APS_ACK_TIMEOUT read from the tree (configuration).",
+        technique="TLA+ observer spec + abstract model checked by TLC; enumerated and random concurrent scenarios executed on the implementation in virtual time; TLC trace validation",
+    ),
     "C10": dict(
         text="spec/Failure.tla abstracts the vertical slice AshProtocol / Gateway / EZSP / application callback to what the property talks "
              "about (failure time and kind, when the EZSP layer learnt of it and asked for a controller reset, request count, calls in "
